@@ -654,8 +654,14 @@ def gen_case(spec):
                 i = seq.find(geom["site"]) + len(geom["site"]) + geom["gap"] + geom["ov"] + 1
                 seq = seq[:i] + g.choice([geom["site"], dna.rc(geom["site"])]) + dna.rand_dna(g, geom["gap"] + geom["ov"] + 2) + seq[i:]
             seq = dna.rotate_right(seq, g.randrange(len(seq)))
-            synthetic.append({"id": sid, "seq": seq, "topology": "circular" if g.random() < 0.9 else "linear"})
+            topo = "circular" if g.random() < 0.85 else "linear"
+            synthetic.append({"id": sid, "seq": seq, "topology": topo})
             recs.append(sid)
+            if g.random() < 0.2:
+                # a twin with the same letters and the other topology (an export of the same plasmid as a linear file)
+                tid = "syn:%d" % len(synthetic)
+                synthetic.append({"id": tid, "seq": seq, "topology": "linear" if topo == "circular" else "circular"})
+                recs.append(tid)
 
     n_clients = g.choice([1, 2, 2, 3])
     n_ops = g.randint(12, 60)
